@@ -399,7 +399,7 @@ class Gen:
             v = self.rng.choice(['0.5', '2.5', '1.25', '0.25', '7.5', '10.75', '0.125', '3.0', '100', '1000'])
             return ('num', v)
         if r < 0.92:
-            return ('num', self.rng.choice(['50%', '25%', '200%', '1E+2', '2.5E+1', '5E-1']))
+            return ('num', self.rng.choice(['50%', '25%', '200%', '1E+2', '2.5E+1', '5E-1', '25E-1', '.5E+1', '5.E+0', '0.5E+1']))
         return ('num', self.rng.choice(['0.1', '0.2', '1.1', '2.3', '0.7']))
 
     def err_expr(self):
